@@ -18,7 +18,8 @@ LEVEL = 'exploration'
 RULE = ('fragments simulated from random references: both strands, paired and single end, 0..6 clipped bases at the read start, mismatch '
         'inside the motif, motif shifted by one cycle (with and without allow_cycle_shift), CHIC trimmed / untrimmed layouts, invert_strand, '
         'no_umi_cigar_processing; each library also mirrored onto the reverse-complemented reference. Non-trivial = fragment on the reverse '
-        'strand or with a clip or cycle shift or broken motif; distinct = distinct (library seed, configuration, fragment id).')
+        'strand or with a clip or cycle shift or broken motif; distinct = distinct (library seed, configuration, fragment id).'
+        ' Plus cut sites on the first / last bases of contigs and scCHIC families of copies within 5 bp under assignment radius 5 (site tag after Molecule.write_tags on the original and the mirrored reference).')
 ASSUMPTIONS = ['NLA: the site is the reference coordinate of the C of CATG; CHIC: ligated base -1 (forward) / +1 (reverse)',
                'with no_umi_cigar_processing only the mirror relation is checked (the option defines the absolute value away)',
                'cycle-shifted reads are simulated without soft clip']
